@@ -43,7 +43,7 @@ class Gen:
 
     def literal(self, str_only=False):
         r = self.rng
-        pool = [["a", "b"], ["x"], ["a", "b", "c"], [""]] if str_only else [["a", "b"], [1, 2], ["a", 1], [0, "x", 2], [True, "t"], [5], ["on", "off", "auto"], [0], [False], [""]]
+        pool = [["a", "b"], ["x"], ["a", "b", "c"], [""]] if str_only else [["a", "b"], [1, 2], ["a", 1], [0, "x", 2], [True, "t"], [5], ["on", "off", "auto"], [0], [False], [""], [1, True], [0, False, "a"], [True, 1, "x"]]
         return Lit(list(r.choice(pool)))
 
     def enum(self, str_only=False):
